@@ -291,6 +291,83 @@ fn shape_grid(r: &mut Runner) {
     r.require(acc > 100, "C13 shape grid must contain accepted swaps");
 }
 
+/// Long routes. Allow-listed routes of 3, 4 and 5 hops (alone, and next to a shorter route sharing their
+/// endpoints); candidates are the route itself and everything one or two edits away from it: another pool
+/// id, another input or output denom in any hop (a denom of the route or a foreign one), a dropped, doubled
+/// or swapped hop, the reversed route. Only the identical route may pass.
+fn long_route_grid(r: &mut Runner) {
+    let d = ["ibc/TIA", "uusdc", "uosmo", "factory/osmo1xyz/milk", "uatom", "uion"];
+    let base: Vec<SwapRoute> = (0..5).map(|i| hop(10 + i as u64 * ((1u64 << 31) + 3), d[i], d[i + 1])).collect();
+    let trader = p20("trader");
+    let mut n = 0u64;
+    let mut acc = 0u64;
+    let mut viols: V = vec![];
+    for len in [3usize, 4, 5] {
+        let route: Vec<SwapRoute> = base[..len].to_vec();
+        let short = vec![hop(99, &route[0].token_in_denom, &route[len - 1].token_out_denom)];
+        for allow in [vec![route.clone()], vec![short.clone(), route.clone()], vec![route.clone(), base[..len - 1].to_vec()]] {
+            let Some(kv) = crate::own::try_treasury_kv(&p20("adm"), &trader, allow.clone()) else { continue };
+            // single edits
+            let mut edits: Vec<Vec<SwapRoute>> = vec![route.clone()];
+            let single = |rt: &Vec<SwapRoute>| -> Vec<Vec<SwapRoute>> {
+                let mut out = vec![];
+                for i in 0..rt.len() {
+                    for p2 in [rt[i].pool_id + 1, rt[i].pool_id ^ (1 << 40), 0] {
+                        let mut x = rt.clone();
+                        x[i].pool_id = p2;
+                        out.push(x);
+                    }
+                    for alt in ["uscam", d[0], d[2], d[5], "IBC/TIA", ""] {
+                        let mut x = rt.clone();
+                        x[i].token_in_denom = alt.to_string();
+                        out.push(x);
+                        let mut x = rt.clone();
+                        x[i].token_out_denom = alt.to_string();
+                        out.push(x);
+                    }
+                    let mut x = rt.clone();
+                    x.remove(i);
+                    out.push(x);
+                    let mut x = rt.clone();
+                    x.insert(i, rt[i].clone());
+                    out.push(x);
+                    if i + 1 < rt.len() {
+                        let mut x = rt.clone();
+                        x.swap(i, i + 1);
+                        out.push(x);
+                    }
+                }
+                let mut x = rt.clone();
+                x.reverse();
+                out.push(x);
+                out
+            };
+            let once = single(&route);
+            edits.extend(once.clone());
+            for e in &once {
+                edits.extend(single(e));
+            }
+            edits.sort_by(|a, b| format!("{a:?}").cmp(&format!("{b:?}")));
+            edits.dedup();
+            for cand in &edits {
+                for exact_in in [true, false] {
+                    let coin = if exact_in { (route[0].token_in_denom.clone(), 5u128) } else { (route[len - 1].token_out_denom.clone(), 5u128) };
+                    let (ok, v) = swap_case(&kv, &allow, &trader, &trader, exact_in, cand, &coin, 9);
+                    n += 1;
+                    acc += ok as u64;
+                    if let Some(v) = v {
+                        if viols.len() < 6 {
+                            viols.push(v);
+                        }
+                    }
+                }
+            }
+        }
+    }
+    r.grid("c13-long-routes: allow-listed routes of 3/4/5 hops x every candidate one or two edits away", n, 2, acc, n - acc, vec![json!({"allow_list": [base[..3]], "route_edit": "middle hop output denom -> uscam"})], viols);
+    r.require(acc >= 18 && n > 10_000, "C13 long-route grid must accept the identical routes");
+}
+
 fn spend_grid(r: &mut Runner) {
     let kv = treasury_kv(&p20("adm"), &p20("trader"), vec![]);
     let osmo = p20("recv");
@@ -425,6 +502,7 @@ pub fn run(thorough: bool) -> i32 {
     ];
     swap_grid(&mut r, thorough);
     shape_grid(&mut r);
+    long_route_grid(&mut r);
     spend_grid(&mut r);
     update_config_grid(&mut r);
     r.finish()
